@@ -265,7 +265,8 @@ def run(tier, rep):
                         "tokens pandas maps to NaN, ELAN annotations with empty values and times beyond what the third-party writers preserve are not generated"]
     cases = l1(rep, tier)
     n = csv_cases(rep, pa, cases["csv"], rng, tier)
-    n += tier_cases(rep, pa, cases["tiers"] if tier != "quick" else cases["tiers"][::3], rng, tier)
+    tiers = cases["tiers"] if tier != "quick" else [p for i, p in enumerate(cases["tiers"]) if i % 3 == 0 or (not p["selall"] and not p["sel"])]
+    n += tier_cases(rep, pa, tiers, rng, tier)
     n += rttm_cases(rep, pa, rng, 30 if tier == "quick" else 400)
     rep.traces += n
     l3_roundtrip(rep, pa, rng, 60 if tier == "quick" else 1500)
